@@ -103,10 +103,10 @@ def gen_op(rng, net, spec, tiny: bool = False) -> dict:  # noqa: ANN001
         return {"op": "clear"}
     pp = rng.sample(pnames, rng.randint(1, min(3, len(pnames))))  # a protocol names the same parameters in every step
     steps = [(dy(rng, 0.25, 1.5), {p: dy(rng, 0.25, 2.5) for p in rng.sample(pp, len(pp))}) for _ in range(rng.randint(1, 3))]
-    if r < 0.96:
+    if r < 0.93:
         return {"op": "protocol", "steps": steps, "n": rng.randint(1, 6)}
     total = sum(d for d, _ in steps)
-    rel = rng.random() < 0.4
+    rel = rng.random() < 0.6
     base = 0.0 if rel else t
     pts = sorted({base + dy(rng, 0.125, total + 0.5) for _ in range(rng.randint(1, 5))})
     return {"op": "protocol_tc", "steps": steps, "points": pts, "relative": rel}
@@ -127,8 +127,13 @@ def run_case(case: dict) -> dict:
     counters: dict[str, int] = {"ops": 0, "segments_checked": 0}
     tiny = rng.random() < 0.2
     counters["mode:tiny_segments_at_large_time"] = int(tiny)
+    repeat: list[dict] = []
     for _ in range(rng.randint(2, 8) + (3 if tiny else 0)):
-        op = gen_op(rng, net, spec, tiny)
+        op = repeat.pop() if repeat else gen_op(rng, net, spec, tiny)
+        if op["op"] in ("protocol_tc", "simulate_tc") and op.get("relative", op["op"] == "protocol_tc") and not op.get("again") and rng.random() < 0.6:
+            # a cycle that is run again: the very same (relative) grid object and protocol for the next stretch
+            repeat.append(dict(op, again=True))
+            counters["cycles_repeated_with_the_same_grid_object"] = counters.get("cycles_repeated_with_the_same_grid_object", 0) + 1
         history.append(op)
         counters["ops"] += 1
         counters[f"op:{op['op']}"] = counters.get(f"op:{op['op']}", 0) + 1
